@@ -176,6 +176,24 @@ def raw_types(A: Analysis):
     return out
 
 
+def scope_bindings(A: Analysis, cs) -> list:
+    """Where `_compile_scope` binds one name per registered task type: (CFG node, loop variable, key text, value text,
+    iterable text) for `for t in IT: scope[K] = V` and for `scope.update({K: V for t in IT})` (no filter, no early exit)."""
+    g = A.cfg(cs, "plain")
+    out = []
+    for n in g.nodes:
+        if n.kind == "for" and isinstance(n.ast, ast.For) and isinstance(n.ast.target, ast.Name) and not any(isinstance(x, (ast.Break, ast.Continue, ast.If)) for x in walk_local(n.ast)):
+            for s_ in n.ast.body:
+                if isinstance(s_, ast.Assign) and isinstance(s_.targets[0], ast.Subscript) and isinstance(s_.targets[0].value, ast.Name):
+                    out.append((n, n.ast.target.id, norm(s_.targets[0].slice), norm(s_.value), norm(n.ast.iter), s_.targets[0].value.id))
+        elif n.kind == "stmt" and isinstance(n.ast, ast.Expr) and isinstance(n.ast.value, ast.Call) and isinstance(n.ast.value.func, ast.Attribute) \
+                and n.ast.value.func.attr == "update" and isinstance(n.ast.value.func.value, ast.Name) and len(n.ast.value.args) == 1 and isinstance(n.ast.value.args[0], ast.DictComp):
+            dc = n.ast.value.args[0]
+            if len(dc.generators) == 1 and not dc.generators[0].ifs and isinstance(dc.generators[0].target, ast.Name):
+                out.append((n, dc.generators[0].target.id, norm(dc.key), norm(dc.value), norm(dc.generators[0].iter), n.ast.value.func.value.id))
+    return out
+
+
 def rule_sch1(A: Analysis, rep):
     rts = raw_types(A)
     for name, doc in DOC_SCHEMA.items():
@@ -201,9 +219,9 @@ def rule_sch1(A: Analysis, rep):
     ok = v is not None and isinstance(v[0], ast.DictComp) and norm(v[0].key) == "task_type.name" and norm(v[0].value) == "task_type" and norm(v[0].generators[0].iter) == "_raw_task_types" and not v[0].generators[0].ifs
     rep.check(ok, "SCH1", "registry keyed by type name", m.tree, "", "raw_task_types is not {t.name: t for t in _raw_task_types}")
     cs = A.fn(TL + "_compile_scope")
-    loops = [l for l in cs.node.body if isinstance(l, ast.For) and norm(l.iter) == "raw_task_types.values()"]
-    ok = len(loops) == 1 and any(isinstance(s, ast.Assign) and norm(s.targets[0]) == "scope[%s.name]" % norm(loops[0].target) and
-                                 norm(s.value) == "self._wrap_task_function(%s.load_from_cond_file)" % norm(loops[0].target) for s in loops[0].body)
+    sb = scope_bindings(A, cs)
+    ok = len(sb) == 1 and sb[0][2] == "%s.name" % sb[0][1] and sb[0][3] == "self._wrap_task_function(%s.load_from_cond_file)" % sb[0][1] and sb[0][4] == "raw_task_types.values()" and \
+        A.cfg(cs, "plain").all_paths_pass(A.cfg(cs, "plain").entry, A.cfg(cs, "plain").exit, [sb[0][0]], skip_labels=is_exc)
     rep.check(ok, "SCH1", "every registered type is bound in the COND scope under its name", cs.node, "", "_compile_scope no longer binds each task type's constructor")
     fr = A.fn("task_types.base.TaskType.from_raw_task")
     r = [x for x in walk_local(fr.node) if isinstance(x, ast.Return)]
@@ -257,9 +275,23 @@ def rule_val1(A: Analysis, rep):
     rets = [n for n in g.nodes if n.kind == "stmt" and isinstance(n.ast, ast.Return)]
     nm = [n for n in g.nodes if n.kind == "stmt" and isinstance(n.ast, ast.Raise) and "InvalidTaskName" in norm(n.ast)]
     merged = A.single_def_value(lf, "args")
+    kw = lf.node.args.kwarg.arg if lf.node.args.kwarg is not None else "kwargs"
+    # "defaults overridden by the user's values", in any of its spellings
+    one_shot = {"{**self._defaults, **%s}" % kw, "dict(self._defaults, **%s)" % kw, "self._defaults | %s" % kw, "{**self._defaults} | %s" % kw}
+    copies = {"dict(self._defaults)", "self._defaults.copy()", "{**self._defaults}", "dict(**self._defaults)"}
+    muts = [n for n in g.nodes if n.kind == "stmt" and n.ast is not None and any(
+        (isinstance(x, ast.Call) and isinstance(x.func, ast.Attribute) and norm(x.func.value) == "args" and x.func.attr in ("update", "pop", "clear", "setdefault", "popitem")) or
+        (isinstance(x, (ast.Assign, ast.Delete)) and any(isinstance(t_, ast.Subscript) and norm(t_.value) == "args" for t_ in (x.targets if hasattr(x, "targets") else [])))
+        for x in ast.walk(n.ast))]
+    muts_before = [m_ for m_ in muts if val and any(g.reachable(m_, v_, skip_labels=skip) for v_ in val)]
+    ok_merge = False
+    if merged is not None and norm(merged) in one_shot:
+        ok_merge = not muts_before
+    elif merged is not None and norm(merged) in copies:
+        ok_merge = len(muts_before) == 1 and norm(muts_before[0].ast) in ("args.update(%s)" % kw, "args.update(**%s)" % kw) and \
+            all(g.all_paths_pass(g.entry, v_, muts_before, skip_labels=skip) for v_ in val)
     ok = bool(val) and bool(rets) and all(g.all_paths_pass(g.entry, r, val, skip_labels=skip) for r in rets) and len(nm) == 1 and \
-        A.path_guards(g, g.entry, nm[0], lf, xstop=["args"]) == [frozenset({("t(TaskIdentifier.is_name_valid(args['name']))", False)})] and \
-        merged is not None and norm(merged) == "{**self._defaults, **kwargs}"
+        A.path_guards(g, g.entry, nm[0], lf, xstop=["args"]) == [frozenset({("t(TaskIdentifier.is_name_valid(args['name']))", False)})] and ok_merge
     rep.check(ok, "VAL1", "definitions are validated, named validly, defaults overridden by the user's values", lf.node, "", "load_from_cond_file no longer validates (schema, then name) the merged arguments")
     rt = A.fn("task_types.raw.RawTaskType.__init__")
     rep.check(any(isinstance(s, ast.Assign) and norm(s.targets[0]) == "self._validator" and norm(s.value) == "generate_type_validator(name, schema)" for s in rt.node.body), "VAL1", "validator built from the type's own schema", rt.node, "", "the validator is not generated from (name, schema)", deep=False)
